@@ -3,7 +3,7 @@ import ast
 
 from sa.loader import AnalysisError, norm, walk_local
 from sa.cfg import cfg_of
-from .common import analysis, names_in, str_consts_compared, isinstance_types, true_facts, conjuncts, ne_texts, eq_texts
+from .common import element_sources, analysis, names_in, str_consts_compared, isinstance_types, true_facts, conjuncts, ne_texts, eq_texts
 from . import c17
 
 PROP = "C15"
@@ -142,9 +142,17 @@ def run(ctx):
     ri = decJ.methods["read_index"]
     ok = sum(1 for n in walk_local(ri.node) if isinstance(n, ast.Assign) and norm(n) == "label = 'null'") == 2 and sum(1 for n in walk_local(ri.node) if isinstance(n, ast.Call) and n.func.__class__ is ast.Attribute and n.func.attr == "popitem") == 2 and any(norm(n) == "index = alternative_symbol.labels.index(label)" for n in walk_local(ri.node) if isinstance(n, ast.Assign))
     ctx.check("C15.R6", "decoder: None -> 'null', otherwise the single key is the branch label looked up in the alternative's labels", ok, ri.where(), "read_index", "the decoder does not unwrap {label: value} symmetrically")
-    labels = [n for n in walk_local(pp.node) if isinstance(n, ast.Call) and norm(n.func) == "labels.append"]
-    texts = sorted(norm(c.args[0]) for c in labels)
-    ctx.check("C15.R6", "labels: name of a named branch else its type; the bare string for names and primitives", texts == ["candidate_schema", "candidate_schema.get('name', candidate_schema.get('type'))"], pp.where(), f"Parser._parse union labels: {texts}", "branch labels must be full names for named types (parsed schema) and type names otherwise")
+    alts = [n for n in walk_local(pp.node) if isinstance(n, ast.Call) and norm(n.func) == "Alternative" and len(n.args) >= 2 and isinstance(n.args[1], ast.Name)]
+    if len(alts) != 1:
+        ctx.unrecognised("C15.R6", "Parser._parse", pp.where(), f"{len(alts)} Alternative(symbols, <labels variable>) constructions")
+    else:
+        texts = element_sources(pp.node, alts[0].args[1].id)
+        # the loop variable ranging over the union's branches
+        loopvars = {norm(n.target) for n in ast.walk(pp.node) if isinstance(n, (ast.For, ast.comprehension)) and norm(n.iter) == pp.pos_params[1]}
+        want = set()
+        for v in loopvars:
+            want |= {v, f"{v}.get('name', {v}.get('type'))"}
+        ctx.check("C15.R6", "labels: name of a named branch else its type; the bare string for names and primitives", bool(loopvars) and texts == want, pp.where(alts[0]), f"Parser._parse union labels: {sorted(texts)}", "branch labels must be full names for named types (parsed schema) and type names otherwise")
 
     # ---- R7 grammar exhaustiveness ---------------------------------------------------------------------------------
     ctx.rule("C15.R7", "Parser._parse handles every data-schema kind of the schema parser", floor=10)
